@@ -8,11 +8,27 @@ use crate::sched::sim;
 use crate::shadow::{shadow, Closure};
 
 #[repr(C)]
-#[derive(Clone, Copy)]
 pub struct Cap<A: Copy, const N: usize> {
     align: [A; 0],
     k: [u8; 4],
     pad: [u8; N],
+}
+
+/// Captured data with a destructor: must be dropped exactly once, whatever storage the
+/// deferred function used.
+impl<A: Copy, const N: usize> Drop for Cap<A, N> {
+    fn drop(&mut self) {
+        let k = u32::from_le_bytes(self.k);
+        if crate::shadow::installed() {
+            let sh = shadow();
+            if let Some(c) = sh.closures.get_mut(k as usize) {
+                c.captured_drops += 1;
+                if c.captured_drops > 1 {
+                    sim().violation("C15", "deferred-captures-dropped-twice", "deferred-captures-dropped-twice", &format!("data captured by deferred function {} was dropped {} times", k, c.captured_drops));
+                }
+            }
+        }
+    }
 }
 
 #[derive(Clone, Copy)]
@@ -105,7 +121,7 @@ fn defer_cap<A: Copy + 'static, const N: usize>(g: &Guard, k: u32) {
 pub fn defer_shape(tid: usize, g: &Guard, shape: usize) {
     let sh = shadow();
     let k = sh.closures.len() as u32;
-    sh.closures.push(Closure { defer_seq: sim().seq, tid, executed: 0, unprotected: false });
+    sh.closures.push(Closure { defer_seq: sim().seq, tid, executed: 0, unprotected: false, captured_drops: 0 });
     match shape % NSHAPES {
         0 => defer_cap::<u8, 0>(g, k),
         1 => defer_cap::<u64, 4>(g, k),
